@@ -167,23 +167,44 @@ Record st := {
 Definition st0 : st :=
   {| by_tup := ∅; by_sid := ∅; by_uidx := ∅; by_attr := ∅; attr_of := ∅; pend := []; next := 1; ctr := 0 |}.
 
-(* which repairs are present.  Repaired = all four (the theorems are about it). *)
+(* the four repairs made to the code during this work, as flags, so that the behaviour before each of them can
+   still be stated (the `_refuted` theorems).  Repaired = all four = what /repo HEAD does. *)
 Record variant := {
   v_owner_check : bool;   (* PADT / session packets must come from the session's own tuple      (b12b708) *)
   v_sid_guard : bool;     (* id 0 is never handed out                                           (731c2cc) *)
-  v_reserve : bool;       (* an allocated id stays reserved until it is indexed (alloc+index atomic)      *)
-  v_guard_remove : bool   (* removeFromIndexes deletes an index entry only if it points to this session   *)
+  v_reserve : bool;       (* an allocated id stays reserved until it is indexed                 (46cb3dc) *)
+  v_guard_remove : bool   (* removeFromIndexes deletes an entry only if it points to the session (9893c59) *)
 }.
 Definition mkv a b c d := {| v_owner_check := a; v_sid_guard := b; v_reserve := c; v_guard_remove := d |}.
-Definition Repaired : variant := mkv true true true true.
-Definition Head : variant := mkv true true false false.          (* /repo HEAD after b12b708, 731c2cc *)
-Definition HeadReserve : variant := mkv true true true false.
-Definition HeadGuard : variant := mkv true true false true.
+Definition Repaired : variant := mkv true true true true.        (* /repo HEAD *)
+Definition Unreserved : variant := mkv true true false false.    (* before 46cb3dc and 9893c59 *)
+Definition ReserveOnly : variant := mkv true true true false.    (* before 9893c59 *)
+Definition GuardOnly : variant := mkv true true false true.      (* before 46cb3dc *)
 Definition Defective : variant := mkv false false false false.   (* the code as first found *)
 Definition DefIso : variant := mkv false true false false.
 Definition DefSid : variant := mkv true false false false.
 
 Definition u16 (n : N) : N := (n mod 65536)%N.
+
+(* c.sessionKey: fmt.Sprintf("%s:%d:%d", mac.String(), svlan, cvlan) as a list of character codes.  The Go map
+   c.sessions is keyed by this string; by_tup is keyed by the tuple itself, which is the same thing exactly when
+   the rendering is injective (Properties: C04_session_key_injective). *)
+Definition hexd (n : N) : N := if N.ltb n 10 then (48 + n)%N else (87 + n)%N.      (* 0-9 a-f *)
+Definition hex2 (b : N) : list N := [hexd (b / 16); hexd (b mod 16)].
+Fixpoint mac_string (m : bytes) : list N :=                                         (* net.HardwareAddr.String *)
+  match m with
+  | [] => []
+  | b :: r => match r with [] => hex2 b | _ => hex2 b ++ 58%N :: mac_string r end
+  end.
+Fixpoint dec_aux (fuel : nat) (n : N) (acc : list N) : list N :=
+  match fuel with
+  | O => acc
+  | S f => let acc' := (48 + n mod 10)%N :: acc in
+           if N.eqb (n / 10) 0 then acc' else dec_aux f (n / 10) acc'
+  end.
+Definition dec (n : N) : list N := dec_aux 20 n [].                                 (* %d *)
+Definition session_key (t : tuple) : list N :=
+  let '(m, sv, cv) := t in mac_string m ++ 58%N :: dec sv ++ 58%N :: dec cv.
 
 Definition set_next (s : st) (n : N) : st :=
   {| by_tup := by_tup s; by_sid := by_sid s; by_uidx := by_uidx s; by_attr := by_attr s; attr_of := attr_of s;
